@@ -84,14 +84,17 @@ func c10_runC10(e *Env) {
 		"0..2 explicit consumers beside it or a hand-over chain of 1..3 one-segment consumers each waited for before the next starts, GOMAXPROCS 1/2/4/16, yields), logs judged by validHistory; non-trivial when >= 50 values pass and >= 1 range loop was left early; distinct by that tuple. " +
 		"I: schedules (8..32 steps, up to 8 threads, 4 modules) of the model's thread/VM/module machine — spawn by any live thread (spawn()/fn.spawn()/go), return, import by the main program (top-level statement or function-level, new or known module), import inside a thread of a module its VM knows, call of a module function by any thread " +
 		"(into a module the thread's VM does not know: 12% of such draws, threads with a handle only), wait — executed step by step on one real VM with an FS importer, the main program generated as straight-line code, every other thread in a command loop; module bodies report each run; " +
-		"non-trivial when a spawned thread calls into a module that the main program imported after some earlier thread had finished; distinct by (spawn forms, import forms, op list)"
+		"non-trivial when a spawned thread calls into a module that the main program imported after some earlier thread had finished; distinct by (spawn forms, import forms, op list). " +
+		"J: call-tree scenarios = 1..2 generated function bodies (statement trees to nesting level 3: effects, defer of a builtin effect | of a script function | of a script function that raises, plain nested calls, calls under try(), chains of d helper frames with a body at the bottom — d 1..6, around 16/32/64/128/256/512 +-4, or 7..306 —, a final return or raised error; nothing after a call that raises), " +
+		"each body called DIRECTLY by the main program and started 1..2 times with spawn() | fn.spawn() | go | spawn() by a spawned coordinator that waits, the spawn statement itself 0..90 calls deep, steps shuffled, GOMAXPROCS 1/2/4/16; the per-thread statement lists merged into one random schedule of the model's thread net (C10 callnet); " +
+		"every effect reported with the thread's tag, wait() read under try(); non-trivial when a spawned body executes a defer statement after a chain of >= 16 frames below it was left; distinct by (bodies, executions, GOMAXPROCS)"
 	prev := runtime.GOMAXPROCS(0)
 	defer runtime.GOMAXPROCS(prev)
 	parts := []struct {
 		name string
 		run  func(*Env)
 	}{{"chanops", c10ChanOps}, {"closeraces", c10CloseRaces}, {"builtins", c10SpawnBuiltins}, {"spawn", c10Spawn}, {"tree", c10Tree},
-		{"nested", c10Nested}, {"topologies", c10Topologies}, {"loops", c10Loops}, {"mods", c10Mods}} // (new parts last: the earlier parts keep their random streams)
+		{"nested", c10Nested}, {"topologies", c10Topologies}, {"loops", c10Loops}, {"mods", c10Mods}, {"calls", c10Calls}} // (new parts last: the earlier parts keep their random streams)
 	only := os.Getenv("VERIF_C10_ONLY") // development aid: run some parts only (comma separated)
 	for _, p := range parts {
 		if only != "" && !strings.Contains(","+only+",", ","+p.name+",") {
